@@ -38,6 +38,17 @@ class _Cfg:
             self.rig = CoapRig(seed=seed)
             self.descr = lambda c: mk_description(["fd00::5"], port=5683, c=c)
         self.pairing = self.rig.pairing
+        # every write to the accessory cache is compared, at that moment, with a fresh serialisation of what the pairing holds
+        cache, pr, self.stale = self.rig.controller._char_cache, self.rig.pairing, []
+        orig = cache.async_create_or_update_map
+
+        def spy(homekit_id, config_num, accessories, broadcast_key=None, state_num=None):
+            fresh = pr.accessories.serialize() if pr.accessories else None
+            if fresh is not None and accessories != fresh:
+                self.stale.append((config_num, self.held(accessories)[-2:], self.held(fresh)[-2:]))
+            return orig(homekit_id, config_num, accessories, broadcast_key, state_num)
+
+        cache.async_create_or_update_map = spy
         self.pairing.description = self.descr(0)  # (the accessory has been seen before at this address: no endpoint change is in play)
         self.rig.run(self.pairing.list_accessories_and_characteristics())
         self.pairing._async_description_update(self.descr(1))  # the first announcement the pairing sees: configuration number 1
@@ -126,6 +137,8 @@ class _Cfg:
                 break
             loop.fire_next_timer()
             loop.run_until_idle()
+        if self.stale:
+            return [("config-change:cache-write-carries-another-database-than-the-pairing-holds", {"transport": self.transport, "sym": sym, "written_vs_held": self.stale[0]})]
         cached = self.rig.controller._char_cache.get_map(p.id)
         det = {"transport": self.transport, "sym": sym, "announced": self.c, "pairing_config_num": p.config_num, "cached_config_num": cached and cached.get("config_num")}
         if cached is None:
